@@ -167,6 +167,8 @@ def main(chk):
                         # next contact phase resets them and are never dereferenced in between (the memory monitors watch every dereference):
                         # they are examined at the dump only if the population did not shrink in that iteration
                         shrunk = prev_n is not None and len(cells) < prev_n
+                        # a removal scheduled for the iteration that produced this dump (divisions in the same iteration can hide the shrinkage)
+                        if step >= 1 and step - 1 < len(sce['sched']) and any(sce['sched'][step - 1]): shrunk = True
                         prev_n = len(cells)
                         for p in population_problems(cells, nft_of_type, seen, step, check_couplings=not shrunk):
                             item['problems'].append((step, p))
@@ -231,6 +233,7 @@ def replay(native, nat, item, sce):
             while ip < len(q['i']):
                 cells, dp, ip = parse_population(q['d'], q['i'], dp, ip, sce.get('contact', 1))
                 shrunk = prev_n is not None and len(cells) < prev_n
+                if step >= 1 and step - 1 < len(sce['sched']) and any(sce['sched'][step - 1]): shrunk = True
                 prev_n = len(cells)
                 probs += ['iteration %d: %s' % (step, p) for p in population_problems(cells, {t: sce['nft'] for t in range(5)}, set(), step, check_couplings=not shrunk)]
                 step += 1
